@@ -265,7 +265,7 @@ def for_programs():
                                                  or (is_static and scheme != 'loop')):
                     continue      # quadratic-cost bodies: fewer scheme x context combinations
                 core = q_header and ((tag in BODY_CORE and (scheme, wrap) in
-                                      (('loop', 'fix2'), ('iter', None), ('iter', 'fix2'), ('plain', None)))
+                                      (('loop', 'fix2'), ('iter', None), ('plain', None)))
                                      or (scheme, wrap) == ('loop', None)
                                      or (main and tag == 'acc' and (scheme, wrap) in (('loop', 'p2'), ('num', None))))
                 emit(hdr, (tag,), pool, scheme, wrap, core)
